@@ -266,4 +266,30 @@ class Rewrite(ast.NodeTransformer):
         return node
 
 
-EXTRA_BUILTINS = {"SYMFMT_": symfmt, "SYMJOIN_": symjoin, "str": sym_str}
+class HashVal:
+    """hash(<symbolic string>): modelled as injective - two hash values are equal exactly when the strings are equal
+    (collisions of Python's str hash are outside the model)"""
+
+    def __init__(self, s):
+        self.s = s
+
+    def __eq__(self, o):
+        if isinstance(o, HashVal):
+            e = (self.s == o.s)
+            return e if isinstance(e, builtins.bool) else builtins.bool(e)
+        return False
+
+    def __ne__(self, o):
+        return not self.__eq__(o)
+
+    def __hash__(self):
+        return 0
+
+
+def sym_hash(x):
+    if isinstance(x, SStr):
+        return HashVal(x)
+    return builtins.hash(x)
+
+
+EXTRA_BUILTINS = {"SYMFMT_": symfmt, "SYMJOIN_": symjoin, "str": sym_str, "hash": sym_hash}
